@@ -125,6 +125,12 @@ type caseSpec struct {
 	K         int    `json:"shutdown_at_attempt,omitempty"`
 	NReq      int    `json:"queued_requests,omitempty"`
 	Consumers int    `json:"queue_consumers,omitempty"`
+	// split scenario: the first queued request has FirstItems items and is split by the legacy batcher
+	// (WithBatcher, max_size MaxSize) into several exports whose outcomes are aggregated before the queue sees them
+	Split      string   `json:"split_scenario,omitempty"`
+	FirstItems int      `json:"first_request_items,omitempty"`
+	MaxSize    int      `json:"batcher_max_size,omitempty"`
+	PartPlan   []string `json:"first_outcome_per_part,omitempty"`
 }
 
 func (s caseSpec) stepAt(i int) step {
@@ -360,6 +366,9 @@ type caseRes struct {
 	Delivered2  map[string]int
 	Undelivered []string
 	Attempts1   int
+	Required    []string // ids that must survive the shutdown (nil: all accepted ids)
+	Finished1   []string // ids whose part ended with ok or a permanent error in the first incarnation
+	Parts       int
 }
 
 func (h *handler) snapshot(spec caseSpec) *caseRes {
@@ -879,6 +888,37 @@ func runQueue(c *driver.Ctx, spec caseSpec) *caseRes {
 		}
 		return mkStep(oTransient)
 	}
+	// split scenario: outcomes are scripted per part (parts are numbered in the order of their first attempt)
+	partOf := map[string]int{}
+	finished := map[string]bool{}
+	if spec.Split != "" {
+		h1.stepFn = func(_ int, ids []string) step {
+			key := strings.Join(ids, ",")
+			pi, seen := partOf[key]
+			if !seen {
+				pi = len(partOf)
+				partOf[key] = pi
+			}
+			if seen || pi >= len(spec.PartPlan) {
+				return mkStep(oTransient)
+			}
+			switch spec.PartPlan[pi] {
+			case "ok":
+				for _, id := range ids {
+					finished[id] = true
+				}
+				return mkStep(oOK)
+			case "permanent":
+				for _, id := range ids {
+					finished[id] = true
+				}
+				return mkStep(oPermanent)
+			case "interrupted-in-wait":
+				return step{K: oThrottle, Kind: oNames[oThrottle], Delay: time.Hour}
+			}
+			return mkStep(oTransient)
+		}
+	}
 	if spec.Point == "during-attempt" {
 		h1.gateAt = 0
 	}
@@ -889,6 +929,11 @@ func runQueue(c *driver.Ctx, spec caseSpec) *caseRes {
 	var mu sync.Mutex
 	body := func() {
 		opts := append(spec.options(), exporterhelper.WithQueue(qcfg))
+		if spec.Split != "" {
+			bcfg := exporterhelper.NewDefaultBatcherConfig()
+			bcfg.MinSize, bcfg.MaxSize, bcfg.FlushTimeout = 0, int64(spec.MaxSize), time.Hour
+			opts = append(opts, exporterhelper.WithBatcher(bcfg))
+		}
 		setErr := func(err error) { mu.Lock(); berr = err; mu.Unlock() }
 		in1, err := k.build(newSettings(h1), h1, opts)
 		if err != nil {
@@ -902,6 +947,12 @@ func runQueue(c *driver.Ctx, spec caseSpec) *caseRes {
 		var accepted [][]string
 		send := func(r int) {
 			ids := []string{fmt.Sprintf("q%d.0", r), fmt.Sprintf("q%d.1", r)}
+			if r == 0 && spec.Split != "" {
+				ids = nil
+				for i := 0; i < spec.FirstItems; i++ {
+					ids = append(ids, fmt.Sprintf("q0.%d", i))
+				}
+			}
 			if err := in1.consume(context.Background(), ids); err == nil {
 				accepted = append(accepted, ids)
 			}
@@ -934,9 +985,21 @@ func runQueue(c *driver.Ctx, spec caseSpec) *caseRes {
 		}
 		h1.mu.Lock()
 		att1 := len(h1.attempts)
+		var required, fin []string
+		for _, ids := range accepted {
+			for _, id := range ids {
+				if finished[id] {
+					fin = append(fin, id)
+				} else {
+					required = append(required, id)
+				}
+			}
+		}
+		nparts := len(partOf)
 		h1.mu.Unlock()
 		mu.Lock()
 		res.Accepted, res.StoredIDs, res.StoreKeys, res.ShutErr, res.Attempts1 = accepted, stored, store.keys(), sdErr, att1
+		res.Required, res.Finished1, res.Parts = required, fin, nparts
 		mu.Unlock()
 		// incarnation 2 on the same storage
 		in2, err := k.build(newSettings(h2), h2, opts)
@@ -948,16 +1011,17 @@ func runQueue(c *driver.Ctx, spec caseSpec) *caseRes {
 			setErr(err)
 			return
 		}
-		want := 0
-		for _, ids := range accepted {
-			want += len(ids)
-		}
 		deadline := time.Now().Add(20 * time.Second)
 		for {
 			h2.mu.Lock()
-			got := len(h2.delivered)
+			missing := 0
+			for _, id := range required {
+				if h2.delivered[id] == 0 {
+					missing++
+				}
+			}
 			h2.mu.Unlock()
-			if got >= want || time.Now().After(deadline) {
+			if missing == 0 || time.Now().After(deadline) {
 				break
 			}
 			time.Sleep(100 * time.Microsecond)
@@ -1012,7 +1076,8 @@ func judgeQueue(c *driver.Ctx, r *caseRes) {
 		}
 		sort.Strings(stored)
 		return map[string]any{"case": spec, "accepted": r.Accepted, "storage_keys_after_shutdown": keys, "request_ids_in_storage_after_shutdown": stored,
-			"delivered_by_second_incarnation": r.Delivered2, "attempts_first_incarnation": r.Attempts, "retry_log_lines": r.Logs}
+			"delivered_by_second_incarnation": r.Delivered2, "attempts_first_incarnation": r.Attempts, "retry_log_lines": r.Logs,
+			"ids_that_must_survive": r.Required, "ids_finished_in_first_incarnation": r.Finished1, "exports_of_first_incarnation": r.Parts}
 	}
 	if r.BuildErr != nil {
 		c.Violation("create", "creating or starting the exporter failed: "+r.BuildErr.Error(), wit(), "signal", spec.Signal)
@@ -1035,20 +1100,32 @@ func judgeQueue(c *driver.Ctx, r *caseRes) {
 		c.Inconclusive("queue-accepted-nothing")
 		return
 	}
+	point := spec.Point
+	if spec.Split != "" {
+		point = "split/" + spec.Split
+		if r.Parts < 2 {
+			c.Inconclusive("queued-request-was-not-split")
+			return
+		}
+		c.Observe("queue_split_cases:"+spec.Split, 1)
+		c.Observe("queue_split_parts_exported", int64(r.Parts))
+	}
 	c.Observe("queue_cases:"+spec.Point, 1)
 	if r.ShutErr != nil {
 		c.Violation("shutdown-error", "Shutdown returned an error: "+r.ShutErr.Error(), wit(), "point", "queue/"+spec.Point)
 	}
 	lost := 0
-	for _, ids := range r.Accepted {
-		for _, id := range ids {
-			if !r.StoredIDs[id] {
-				lost++
-			}
+	for _, id := range r.Required {
+		if !r.StoredIDs[id] {
+			lost++
 		}
 	}
 	if lost > 0 {
-		c.Violation("shutdown-classification", fmt.Sprintf("%d accepted items whose export was interrupted by Shutdown are no longer in the persistent queue's storage after Shutdown returned: the interruption was not classified as shutdown, the request is lost", lost), wit(), "signal", spec.Signal, "point", spec.Point)
+		what := fmt.Sprintf("%d accepted items whose export was interrupted by Shutdown are no longer in the persistent queue's storage after Shutdown returned: the interruption was not classified as shutdown, the request is lost", lost)
+		if spec.Split != "" {
+			what += fmt.Sprintf(" (the request was split into %d exports, first outcomes %v; the aggregate of their results must stay shutdown-classified)", r.Parts, spec.PartPlan)
+		}
+		c.Violation("shutdown-classification", what, wit(), "signal", spec.Signal, "point", point)
 		return
 	}
 	c.Observe("queue_requests_kept_in_storage", int64(len(r.Accepted)))
@@ -1057,11 +1134,14 @@ func judgeQueue(c *driver.Ctx, r *caseRes) {
 		return
 	}
 	missing := 0
-	for _, ids := range r.Accepted {
-		for _, id := range ids {
-			if r.Delivered2[id] == 0 {
-				missing++
-			}
+	for _, id := range r.Required {
+		if r.Delivered2[id] == 0 {
+			missing++
+		}
+	}
+	for _, id := range r.Finished1 {
+		if r.Delivered2[id] > 0 {
+			c.Observe("queue_split_finished_items_delivered_again", 1) // at-least-once: allowed
 		}
 	}
 	if missing > 0 {
@@ -1070,7 +1150,7 @@ func judgeQueue(c *driver.Ctx, r *caseRes) {
 	} else {
 		c.Observe("queue_requests_redelivered", int64(len(r.Accepted)))
 	}
-	c.Nontrivial("queue", spec.Signal, spec.Point, spec.Cfg.Class, spec.NReq, spec.Consumers, first(spec))
+	c.Nontrivial("queue", spec.Signal, point, spec.Cfg.Class, spec.NReq, spec.Consumers, first(spec), spec.FirstItems, spec.MaxSize)
 }
 
 func first(s caseSpec) string { return s.stepAt(0).Kind }
@@ -1215,6 +1295,41 @@ func queueCase(rng *rand.Rand, g int64) (spec caseSpec) {
 			spec.Script = []step{{K: oThrottle, Kind: oNames[oThrottle], Delay: time.Hour}}
 		}
 	}
+	return spec
+}
+
+var splitScenarios = map[string][]string{
+	"all-interrupted":              {"interrupted-in-wait", "interrupted", "interrupted"},
+	"ok-then-interrupted":          {"ok", "interrupted-in-wait", "interrupted"},
+	"permanent-then-interrupted":   {"permanent", "interrupted-in-wait", "interrupted"},
+	"interrupted-then-ok":          {"interrupted-in-wait", "ok", "interrupted"},
+	"interrupted-then-permanent":   {"interrupted-in-wait", "permanent", "interrupted"},
+	"ok-interrupted-ok":            {"ok", "interrupted-in-wait", "ok"},
+	"interrupted-permanent-ok":     {"interrupted-in-wait", "permanent", "ok"},
+	"permanent-interrupted-second": {"permanent", "interrupted-in-wait", "permanent"},
+}
+
+var splitNames = []string{"all-interrupted", "ok-then-interrupted", "permanent-then-interrupted", "interrupted-then-ok", "interrupted-then-permanent",
+	"ok-interrupted-ok", "interrupted-permanent-ok", "permanent-interrupted-second"}
+
+// queueSplitCase: persistent queue + legacy batcher + retry; the first request is split into 2 or 3 exports.
+// One part meets the Shutdown inside its retry wait (one hour, throttle), parts marked "interrupted" are
+// exported after the stop and fail, so their (first and only) retry wait is cut by the shutdown as well.
+func queueSplitCase(rng *rand.Rand, g int64) (spec caseSpec) {
+	spec = caseSpec{Type: "queue", NItems: 2, Point: "during-wait"}
+	spec.sig = int(g % int64(len(kits)))
+	spec.Split = splitNames[(g/4)%int64(len(splitNames))]
+	parts := 2 + int((g/32)%2)
+	spec.MaxSize = 2 + rng.Intn(2)
+	spec.FirstItems = spec.MaxSize*(parts-1) + 1 + rng.Intn(spec.MaxSize)
+	spec.PartPlan = append([]string(nil), splitScenarios[spec.Split][:parts]...)
+	if parts == 2 && spec.PartPlan[0] != "interrupted-in-wait" && spec.PartPlan[1] != "interrupted-in-wait" {
+		spec.PartPlan[1] = "interrupted-in-wait"
+	}
+	spec.NReq = 1 + rng.Intn(2)
+	spec.Consumers = 1
+	spec.Cfg = shutdownIntervals[rng.Intn(len(shutdownIntervals))]
+	spec.Script = []step{mkStep(oTransient)}
 	return spec
 }
 
@@ -1394,6 +1509,19 @@ func run(c *driver.Ctx) {
 		}
 		rn.emit(job{g, queueCase(c.CaseRand(g), k)})
 	}
+	// 5. the same purpose when the queued request is split by the legacy batcher into several exports
+	nSplit := int64(c.N(384, 8000))
+	if race {
+		nSplit = int64(c.N(192, 4000))
+	}
+	for k := int64(0); k < nSplit; k++ {
+		g := next
+		next++
+		if !c.Mine(g) {
+			continue
+		}
+		rn.emit(job{g, queueSplitCase(c.CaseRand(g), k)})
+	}
 	rn.flush()
 }
 
@@ -1402,7 +1530,7 @@ func main() {
 		ID:    "C05",
 		Level: "exploration",
 		Rule: "a sweep case is one (outcome script, back-off configuration class, signal): every script consisting of a prefix of non-terminal outcomes {transient, throttle(d), partial(remaining subset), attempt-timeout} of length <= 5 (quick) / 7 (thorough) followed by a verdict {ok, permanent, request-deadline expiry, cancellation} is enumerated, each under 5 (quick) / all 15 (thorough) configuration classes (randomization 0 / 0.3 / 0.5 / 1, multiplier 1-3, intervals 0, 1 ns, 50 us, 1-2 ms, budgets and deadlines none / 9-12 ms / 1 h, retry disabled), plus random scripts of 6-9 failures incl. throttle+partial; " +
-			"shutdown cases: Shutdown before the call, while attempt k is in flight (gate in the export function) or after the retry sender logged that wait k started, with waits of 0, 1 ns, 10 s and one hour; queue cases: the same behind a persistent queue on an in-memory storage extension, followed by a second incarnation; " +
+			"shutdown cases: Shutdown before the call, while attempt k is in flight (gate in the export function) or after the retry sender logged that wait k started, with waits of 0, 1 ns, 10 s and one hour; queue cases: the same behind a persistent queue on an in-memory storage extension, followed by a second incarnation, also with the queued request split by the legacy batcher (max_size) into 2-3 exports whose outcomes {interrupted by the shutdown inside / right at its retry wait, ok, permanent} are aggregated before the queue classifies them (8 outcome patterns); " +
 			"non-trivial = at least one retry decision (retry or give up after a failed attempt) was taken; distinct = distinct (script, configuration class [, shutdown point])",
 		Assumptions: []string{
 			"configurations are accepted by BackOffConfig.Validate, with multiplier >= 1 and initial_interval <= max_interval (for other values the envelope of the statement is not defined)",
